@@ -18,13 +18,27 @@
 (*                        (the tenant key has no addresses: U gets nothing)  *)
 (*             "chain_opt" table.chain: optional_step U -> own address,      *)
 (*                        alias (a miss passes the user name on = identity)  *)
+(*             "file"     user_to_email file: U -> own address, alias; V ->  *)
+(*                        own address - a table.file that is edited and     *)
+(*                        reloaded while the server runs (see edit)          *)
+(*             "fileprep" identity + prepare_email file: alias -> own address*)
+(*   edit    what happened to the file behind "file"/"fileprep" between the  *)
+(*           start of the server and this message ("the configured mapping"  *)
+(*           is the file as last reloaded): "none" | "same" (rewritten with  *)
+(*           the same lines) | "revoke" (alias taken off U's line) |         *)
+(*           "delline" (U's line / the alias line deleted) | "replace"       *)
+(*           (alias replaced by ivy / alias now prepared to V's address) |   *)
+(*           "grant" (the server started without alias, it was added)        *)
 (*   norm    auth_normalize = from_normalize, every documented setting     *)
 (*   auth    the authenticated user as the client spelled it, [a, v];      *)
 (*           a = "none": not authenticated                                 *)
 (*   mf      MAIL FROM address [a, v]                                      *)
 (*   from    the From fields: [layout, x, y, style]                        *)
 (*             none | one (x) | two (x, y in one field) | fields (x and y  *)
-(*             in two From fields, x first) | group (x, y) | group1 (x)    *)
+(*             in two From fields, x first) | group (x, y) | group1 (x) |  *)
+(*             fields_xy (field x, then a field "x, y") | fields_yx (x,    *)
+(*             then "y, x") | fields_g (x, then a group of x, y) |         *)
+(*             fields3 (x, x again, y)                                     *)
 (*           style = how the single address of layout "one" is written     *)
 (*   sender  the Sender address or NoItem                                  *)
 (*   chk     check_header yes / no (envelope-only mode, a documented setting)*)
@@ -51,6 +65,12 @@
 (*   ivyd  Ivy@example.org spelled with U+0130 (capital dotted I): another   *)
 (*         mailbox (PRECIS maps U+0130 to i + U+0307), but strings.ToLower   *)
 (*         - and therefore the "casefold" setting - turns it into ivy        *)
+(*   dv    ceo@fass<sigma>.example (in the address list of U; its domain is  *)
+(*         the second domain of the wildcard table)                          *)
+(*   dvss, dvfs, dvzw  the same with an IDNA deviation character: sharp s    *)
+(*         for "ss", final sigma for sigma, a zero-width non-joiner inside.  *)
+(*         IDNA2008 keeps them apart from dv (other domains); transitional   *)
+(*         (IDNA2003) processing would map all three onto dv                 *)
 (*   null  the null reverse-path MAIL FROM:<> (envelope only): nobody's     *)
 (*         address, nobody is entitled to it                                *)
 (*   pm    "postmaster" without a domain (envelope only): an address like   *)
@@ -76,6 +96,9 @@ NoItem == Item("-", "-")
 
 Tbls  == {"identity", "list", "domain", "star", "absent", "prepare"}
 ChainTbls == {"chain_req", "chain_dom", "chain_opt"}
+FileTbls == {"file", "fileprep"}
+FileEdits == {"none", "same", "revoke", "delline", "replace", "grant"}
+DevTwins == {"dvss", "dvfs", "dvzw"}
 QuarActs == {"quarantine", "custom_quarantine"}
 Addrs == {"self", "alias", "peer", "foreign", "look", "sub", "suffix"}
 Vars  == {"plain", "upper", "nfd", "wide", "idn"}
@@ -84,23 +107,35 @@ Styles == {"bare", "angle", "dn", "dntrick", "encoded", "enctrick", "folded", "c
            "casename", "spacename"}
 
 (* ---- what the configuration entitles a user to (semantics, spelling-free) ---- *)
-Ent(tbl, u) ==
+(* the address list of U in the file as last (re)loaded, and where prepare_email sends alias *)
+FileList(edit) == CASE edit \in {"none", "same", "grant"} -> {"self", "alias"}
+                    [] edit = "revoke"  -> {"self"}
+                    [] edit = "delline" -> {}
+                    [] edit = "replace" -> {"self", "ivy"}
+FilePrep(edit) == CASE edit \in {"none", "same", "grant"} -> "self"
+                    [] edit = "replace" -> "peer"
+                    [] OTHER -> "-"
+
+Ent(tbl, u, edit) ==
   IF u = "U" THEN CASE tbl = "identity" -> {"self"}
-                    [] tbl = "list"     -> {"self", "alias", "ivy"}
-                    [] tbl = "domain"   -> {"self", "alias", "peer", "ivy", "ivyd"}
-                    [] tbl = "star"     -> Addrs \cup {"pm", "ivy", "ivyd"}   \* any address; the null path is none
+                    [] tbl = "list"     -> {"self", "alias", "ivy", "dv"}
+                    [] tbl = "domain"   -> {"self", "alias", "peer", "ivy", "ivyd", "dv"}
+                    [] tbl = "star"     -> Addrs \cup {"pm", "ivy", "ivyd", "dv"} \cup DevTwins  \* any address; the null path is none
+                    [] tbl = "file"     -> FileList(edit)
+                    [] tbl = "fileprep" -> {"self"} \cup (IF FilePrep(edit) = "self" THEN {"alias"} ELSE {})
                     [] tbl = "absent"   -> {}
                     [] tbl = "prepare"  -> {"self", "alias"}
                     [] tbl = "chain_req" -> {"self", "alias"}
                     [] tbl = "chain_dom" -> {}
                     [] tbl = "chain_opt" -> {"self", "alias"}
-  ELSE IF u = "V" /\ tbl \in {"identity", "prepare", "chain_dom", "chain_opt"} THEN {"peer"}
+  ELSE IF u = "V" /\ tbl = "fileprep" THEN {"peer"} \cup (IF FilePrep(edit) = "peer" THEN {"alias"} ELSE {})
+  ELSE IF u = "V" /\ tbl \in {"identity", "prepare", "chain_dom", "chain_opt", "file"} THEN {"peer"}
   ELSE {}
 
 (* the operator's "casefold" setting is strings.ToLower, which makes U+0130 an i *)
 Canon(r, it) == IF it.a = "ivyd" /\ r.norm = "casefold" THEN [it EXCEPT !.a = "ivy"] ELSE it
 
-Entitled(r, it) == Canon(r, it).a \in Ent(r.tbl, r.auth.a)
+Entitled(r, it) == Canon(r, it).a \in Ent(r.tbl, r.auth.a, r.edit)
 
 FromFields(f) ==
   CASE f.layout = "none"   -> <<>>
@@ -109,6 +144,9 @@ FromFields(f) ==
     [] f.layout = "fields" -> << <<f.x>>, <<f.y>> >>
     [] f.layout = "group"  -> << <<f.x, f.y>> >>
     [] f.layout = "group1" -> << <<f.x>> >>
+    [] f.layout \in {"fields_xy", "fields_g"} -> << <<f.x>>, <<f.x, f.y>> >>
+    [] f.layout = "fields_yx" -> << <<f.x>>, <<f.y, f.x>> >>
+    [] f.layout = "fields3"   -> << <<f.x>>, <<f.x>>, <<f.y>> >>
 
 AllFrom(f) == UNION {{FromFields(f)[i][j] : j \in 1..Len(FromFields(f)[i])} : i \in 1..Len(FromFields(f))}
 
@@ -148,7 +186,7 @@ DC(norm, v) ==
     [] norm = "casefold"        -> IF v \in {"plain", "upper", "wide"} THEN "c" ELSE v
     [] OTHER                    -> IF v \in {"plain", "wide"} THEN "c" ELSE v
 
-MainDomain(a) == a \in {"self", "alias", "peer", "ivy", "ivyd"}
+MainDomain(a) == a \in {"self", "alias", "peer", "ivy", "ivyd"} \/ a = "dv"   \* the two domains of the wildcard entry
 Own(u) == IF u = "U" THEN "self" ELSE "peer"
 
 (* does the (normalised) address match what the table returns for the (normalised) user? *)
@@ -156,7 +194,8 @@ Match(r, it00) ==
   LET n  == r.norm
       it0 == Canon(r, it00)
       \* prepare_email: static alias -> own address of U, keyed by the canonical spelling
-      it == IF r.tbl = "prepare" /\ it0.a = "alias" /\ NC(n, it0.v) = NC(n, "plain") THEN P("self") ELSE it0
+      prep == IF r.tbl = "prepare" THEN "self" ELSE IF r.tbl = "fileprep" THEN FilePrep(r.edit) ELSE "-"
+      it == IF prep # "-" /\ it0.a = "alias" /\ NC(n, it0.v) = NC(n, "plain") THEN P(prep) ELSE it0
       found == r.auth.a = "U" /\ NC(n, r.auth.v) = NC(n, "plain")      \* static tables are keyed by "U" canonical
       foundV == r.auth.a = "V" /\ NC(n, r.auth.v) = NC(n, "plain")
       ident == it.a = Own(r.auth.a) /\ NC(n, it.v) = NC(n, r.auth.v)   \* the entry is the normalised user name
@@ -167,8 +206,9 @@ Match(r, it00) ==
      \* the others leave a string that only "*" covers
      THEN r.tbl = "star" /\ found /\ n \in {"precis_casefold", "precis", "casefold", "noop"}
      ELSE
-     CASE r.tbl \in {"identity", "prepare"} -> ident
-       [] r.tbl = "list"   -> found /\ inList({"self", "alias", "ivy"})
+     CASE r.tbl \in {"identity", "prepare", "fileprep"} -> ident
+       [] r.tbl = "list"   -> found /\ inList({"self", "alias", "ivy", "dv"})
+       [] r.tbl = "file"   -> IF r.auth.a = "U" THEN found /\ inList(FileList(r.edit)) ELSE foundV /\ inList({"peer"})
        [] r.tbl = "chain_req" -> found /\ inList({"self", "alias"})
        [] r.tbl = "chain_dom" -> foundV /\ inList({"peer"})
        [] r.tbl = "chain_opt" -> IF found THEN inList({"self", "alias"}) ELSE ident
@@ -219,10 +259,10 @@ RowsA ==
   [ tbl : Tbls, norm : {"auto"},
     auth : {AuthNone, Item("U", "plain"), Item("V", "plain")},
     mf : Plain(Addrs),
-    from : FromNone \cup FromOne(Plain(Addrs), Styles) \cup FromMulti({"two", "fields", "group"}, X3)
+    from : FromNone \cup FromOne(Plain(Addrs), Styles) \cup FromMulti({"two", "fields", "group", "fields_xy", "fields_yx", "fields_g", "fields3"}, X3)
            \cup FromGroup1(X3),
     sender : {NoItem} \cup X3,
-    chk : {TRUE}, sasl : {Sasl0}, nb : {"absent"}, act : {"default"}, fam : {"A"} ]
+    chk : {TRUE}, sasl : {Sasl0}, nb : {"absent"}, act : {"default"}, edit : {"none"}, fam : {"A"} ]
 
 (* family B: spellings against normalisation settings *)
 RowsB ==
@@ -232,7 +272,7 @@ RowsB ==
     mf : XV,
     from : FromOne(XV, {"angle"}),
     sender : {NoItem, Item("self", "upper"), Item("self", "idn"), Item("foreign", "upper")},
-    chk : {TRUE}, sasl : {Sasl0}, nb : {"absent"}, act : {"default"}, fam : {"B"} ]
+    chk : {TRUE}, sasl : {Sasl0}, nb : {"absent"}, act : {"default"}, edit : {"none"}, fam : {"B"} ]
 
 (* family C: the session around the check - null / postmaster envelope senders, envelope-only
    mode, how the session was authenticated (mechanism, authorization identity), and a
@@ -246,7 +286,7 @@ RowsC ==
     chk : BOOLEAN,
     sasl : {Sasl0, [mech |-> "PLAIN", az |-> "same"], [mech |-> "PLAIN", az |-> "other"],
             [mech |-> "LOGIN", az |-> "empty"]},
-    nb : {"absent", "none", "quarantine", "reject"}, act : {"default"}, fam : {"C"} ]
+    nb : {"absent", "none", "quarantine", "reject"}, act : {"default"}, edit : {"none"}, fam : {"C"} ]
 
 (* family D: the action directives, plain and with a custom SMTP reply *)
 RowsD ==
@@ -256,7 +296,7 @@ RowsD ==
     from : FromNone \cup FromOne(Plain({"self", "foreign"}), {"angle"}),
     sender : {NoItem, P("self")},
     chk : BOOLEAN, sasl : {Sasl0}, nb : {"absent", "quarantine"},
-    act : {"reject", "quarantine", "custom_reject", "custom_quarantine"}, fam : {"D"} ]
+    act : {"reject", "quarantine", "custom_reject", "custom_quarantine"}, edit : {"none"}, fam : {"D"} ]
 
 (* family E: an entitled envelope sender followed, in the same message, by a mailbox
    that only strings.ToLower confuses with it, under every normalisation setting *)
@@ -266,7 +306,7 @@ RowsE ==
     mf : {P("ivy"), Item("ivy", "upper"), P("self")},
     from : FromOne({P("ivyd"), Item("ivyd", "upper"), P("ivy"), P("foreign")}, {"angle"}),
     sender : {NoItem, P("ivyd"), P("ivy")},
-    chk : {TRUE}, sasl : {Sasl0}, nb : {"absent"}, act : {"default"}, fam : {"E"} ]
+    chk : {TRUE}, sasl : {Sasl0}, nb : {"absent"}, act : {"default"}, edit : {"none"}, fam : {"E"} ]
 
 (* family F: user_to_email built with table.chain (required and optional steps) *)
 RowsF ==
@@ -276,9 +316,31 @@ RowsF ==
     mf : X4,
     from : FromNone \cup FromOne(X4, {"angle"}),
     sender : {NoItem},
-    chk : {TRUE}, sasl : {Sasl0}, nb : {"absent"}, act : {"default"}, fam : {"F"} ]
+    chk : {TRUE}, sasl : {Sasl0}, nb : {"absent"}, act : {"default"}, edit : {"none"}, fam : {"F"} ]
 
-Rows == (IF "A" \in Families THEN RowsA ELSE {}) \cup (IF "B" \in Families THEN RowsB ELSE {})
+(* family G: addresses that differ from an entitled one by an IDNA deviation character only
+   (envelope sender, From, Sender), under every normalisation setting *)
+RowsG ==
+  LET TW == Plain(DevTwins) IN
+  [ tbl : {"list", "domain"}, norm : Norms,
+    auth : {Item("U", "plain")},
+    mf : TW \cup {P("dv"), P("self")},
+    from : FromOne(TW \cup {P("dv")}, {"angle"}),
+    sender : {NoItem, P("dvss")},
+    chk : {TRUE}, sasl : {Sasl0}, nb : {"absent"}, act : {"default"}, edit : {"none"}, fam : {"G"} ]
+
+(* family H: the mapping lives in a table.file that is edited and reloaded while the server
+   runs; the message is judged against the file as last reloaded *)
+RowsH ==
+  [ tbl : FileTbls, norm : {"auto"},
+    auth : {Item("U", "plain"), Item("U", "upper"), Item("V", "plain")},
+    mf : Plain({"self", "alias", "ivy", "peer"}),
+    from : FromOne(Plain({"self", "alias", "ivy"}), {"angle"}),
+    sender : {NoItem},
+    chk : {TRUE}, sasl : {Sasl0}, nb : {"absent"}, act : {"default"}, edit : FileEdits, fam : {"H"} ]
+
+Rows == (IF "G" \in Families THEN RowsG ELSE {}) \cup (IF "H" \in Families THEN RowsH ELSE {}) \cup
+        (IF "A" \in Families THEN RowsA ELSE {}) \cup (IF "B" \in Families THEN RowsB ELSE {})
         \cup (IF "C" \in Families THEN RowsC ELSE {}) \cup (IF "D" \in Families THEN RowsD ELSE {})
         \cup (IF "E" \in Families THEN RowsE ELSE {}) \cup (IF "F" \in Families THEN RowsF ELSE {})
 
